@@ -3,6 +3,7 @@ import WtfModel.Proofs.C01Legacy
 import WtfModel.Proofs.C01Idf
 import WtfModel.Proofs.ScoreField
 import WtfModel.Gen.SearchParams
+import WtfModel.Proofs.Boosts
 
 /-!
   C01 — search returns a bounded, ranked, duplicate-free list of real entries.
@@ -279,5 +280,131 @@ example : cliLimit Gen.SearchParams.configMaxResults 0 = some 5 ∧ cliLimit Gen
     cliLimit Gen.SearchParams.configMaxResults (-1) = none := by decide
 
 end examples
+
+end Wtf.C01
+
+/-! ### The NLP layer is modelled: no hypothesis about the NLP factors is left
+
+  `Boosts.nlpOut ri db nq` (Model/Boosts.lean over Model/Nlp.lean) is the model of what `SearchUniversal` obtains from
+  package nlp and from `calculateIntentBoost` / `calculateBoostForCommand` for the normalised query `nq` on database `db`,
+  with every table, literal and factor regenerated from the source on every run (`Gen/Boosts.lean`, `Gen/NlpTables.lean`,
+  `Gen/Hints.lean`) and validated bit for bit against the real functions (correspondence domain `boosts`; the `search`
+  driver runs with this NLP layer and compares it with the real values of every case).  For it the `nlp` field of
+  `TuningWF` is a theorem (`Boosts.nlpOut_factorsNonneg`: intent boost > 0, cascading boost ≥ 1, proved from a decidable
+  check of the regenerated factors), so the C01 clauses hold with the remaining four hypotheses only. -/
+namespace Wtf.C01
+open Wtf.Search Wtf.Legacy ScoreOps ScoreLaws
+
+variable {S : Type} [ScoreOps S] [ScoreLaws S]
+
+/-- `TuningWF` without its `nlp` field: BM25F parameters sane (proved for the source: `source_params_sane`), idf ≥ 0
+    (`idf_formula_nonneg`), TF-IDF similarities ≥ 0, the fuzzy library's sort is a sorted permutation -/
+structure TuningWFRest (T : Tuning S) : Prop where
+  params : ParamsWF T.params
+  idf : IdfNonneg T
+  tfidf : TfidfNonneg T
+  fuzzySort : FuzzySortOK T
+
+/-- the regenerated boost rules are well formed: every multiplicative literal of the intent-boost functions is > 0, the
+    cascading boost starts at a value ≥ 1 and adds literals ≥ 0 (re-evaluated by `decide` on every regeneration) -/
+theorem boost_rules_wf : Boosts.genSpec.WF = true := Boosts.genSpec_wf
+
+/-- for every database, query text, document and rune table: the modelled `calculateIntentBoost` is positive and the
+    modelled `calculateBoostForCommand` is at least 1 -/
+theorem modelled_factors (ri : RuneInfo) (db : Db) (nq : Bytes) (d : Nat) :
+    Pos ((Boosts.nlpOut (S := S) ri db nq).intentBoost d) ∧ ge ((Boosts.nlpOut (S := S) ri db nq).cascade d) one :=
+  ⟨Boosts.nlpOut_intentBoost_pos ri db nq d, Boosts.nlpOut_cascade_ge_one ri db nq d⟩
+
+/-- a parameter set whose NLP layer is the modelled one for the searched database is well formed as soon as its other
+    fields are -/
+theorem tuningWF_of_modelled_nlp (T : Tuning S) (db : Db) (hnlp : T.nlp = Boosts.nlpOut T.ri db) (hR : TuningWFRest T) :
+    TuningWF T where
+  params := hR.params
+  idf := hR.idf
+  nlp := by intro q; rw [hnlp]; exact Boosts.nlpOut_factorsNonneg T.ri db q
+  tfidf := hR.tfidf
+  fuzzySort := hR.fuzzySort
+
+/-- **C01, SearchUniversal, with the modelled NLP layer**: the five clauses, no hypothesis about NLP factors -/
+theorem universal_modelled_nlp (T : Tuning S) (db : Db) (hnlp : T.nlp = Boosts.nlpOut T.ri db) (hR : TuningWFRest T)
+    (q : Bytes) (o : Opts S) (r : List (Nat × S)) (h : search T db q o = .ok r) :
+    r.length ≤ effLimit o ∧ (∀ x ∈ r, x.1 < db.length) ∧ (r.map (·.1)).Nodup ∧
+    r.Pairwise (fun a b => lt a.2 b.2 = false) ∧ (∀ x ∈ r, Nonneg x.2) :=
+  universal T (tuningWF_of_modelled_nlp T db hnlp hR) db q o r h
+
+/-- **C01, `wtf [search]`, with the modelled NLP layer** -/
+theorem cli_modelled_nlp (T : Tuning S) (db : Db) (hnlp : T.nlp = Boosts.nlpOut T.ri db) (hR : TuningWFRest T)
+    (q : Bytes) (o : Opts S) (hl : 0 < o.limit) (r : List (Nat × S)) (h : cliResults T db q o = .ok r) :
+    r.length ≤ effLimit o ∧ (∀ x ∈ r, x.1 < db.length) ∧ (r.map (·.1)).Nodup ∧
+    r.Pairwise (fun a b => lt a.2 b.2 = false) ∧ (∀ x ∈ r, Nonneg x.2) :=
+  cli T (tuningWF_of_modelled_nlp T db hnlp hR) db q o hl r h
+
+/-! non-vacuity (S := ℚ).  The examples evaluate the *interpreter* on a small hand-written rule set and a hand-written
+    analysis, so that they do not depend on the regenerated literals (a harmless change of a literal in the source must not
+    break this file); that the regenerated rule set computes what the real functions compute is the `boosts` correspondence. -/
+section examples_modelled
+
+local instance : ScoreOps ℚ := fieldScoreOps ℚ
+local instance : ScoreLaws ℚ := fieldScoreLaws ℚ
+
+/-- the example parameter set with the modelled NLP layer for `db0`: the hypotheses of `universal_modelled_nlp` are satisfiable -/
+private def T1 : Tuning ℚ := { T0 with nlp := Boosts.nlpOut T0.ri db0 }
+
+private theorem T1_rest : TuningWFRest T1 := ⟨T0_wf.params, T0_wf.idf, T0_wf.tfidf, T0_wf.fuzzySort⟩
+
+example : ∀ q o r, search T1 db0 q o = .ok r → r.length ≤ effLimit o ∧ ∀ x ∈ r, Nonneg x.2 :=
+  fun q o r h => let p := universal_modelled_nlp T1 db0 rfl T1_rest q o r h; ⟨p.1, p.2.2.2.2⟩
+
+open Wtf.Boost in
+/-- a small rule set in the vocabulary of `Basic/BoostRule.lean` (shapes as in search.go / cascading_boost.go) -/
+private def exSpec : Boosts.Spec :=
+  { intentInit := ⟨1, 1⟩
+    intentSwitch := [
+      ("find", .block [.ite (.containsAny .cmd ["ls", "grep"]) (.ret ⟨2, 1⟩) .skip, .ret ⟨1, 1⟩]),
+      ("create", .block [.ite (.containsAny .cmd ["make"])
+          (.block [.set ⟨2, 1⟩, .ite (.and (.contains .cmd "makepkg") (.not (.contains .desc "package"))) (.mul ⟨3, 10⟩) .skip, .retBoost]) .skip,
+        .ret ⟨1, 1⟩])]
+    intentDefault := ⟨1, 1⟩
+    actionBoosts := .block [.set ⟨1, 1⟩,
+      .loop .actions (.block [
+        .ite (.containsVar .cmd) (.mul ⟨3, 2⟩) (.ite (.containsVar .desc) (.mul ⟨13, 10⟩) .skip),
+        .ite (.varEq "compress") (.ite (.containsAny .cmd ["tar"]) (.mul ⟨5, 2⟩) .skip) .skip]),
+      .retBoost]
+    targetBoosts := .block [.set ⟨1, 1⟩, .loop .targets (.ite (.containsVar .cmd) (.mul ⟨7, 5⟩) (.ite (.containsVar .desc) (.mul ⟨6, 5⟩) .skip)), .retBoost]
+    cascadeInit := ⟨1, 1⟩
+    cascadeTerms := [.hint ⟨6, 1⟩, .term .actionTerms ⟨3, 1⟩, .context ⟨5, 2⟩, .term .targetTerms ⟨2, 1⟩, .intent]
+    hintMiss := ⟨0, 1⟩, termMiss := ⟨0, 1⟩, contextMiss := ⟨0, 1⟩
+    intentNoEntry := ⟨0, 1⟩, intentHit := ⟨3, 2⟩, intentMiss := ⟨0, 1⟩
+    intentKeywords := [("create", ["make", "new"])]
+    knownContexts := ["git", "tar"]
+    synonyms := [(bs "compress", [bs "zip", bs "archive"])] }
+
+example : exSpec.WF = true := by decide
+
+/-- a hand-written analysis: "list files" -/
+private def exA : Nlp.Analysis := { actions := [bs "list"], targets := [bs "files"], keywords := [bs "files"], intent := bs "find" }
+/-- … and "compress with tar" -/
+private def exB : Nlp.Analysis := { actions := [bs "compress"], targets := [], keywords := [bs "tar"], intent := bs "general" }
+
+-- intent find + command contains "ls": 2; action only in the description: 1.3; target only in the description: 1.2
+example : Boosts.intentBoostWith (S := ℚ) exSpec {} (mk "ls -la" "list files") exA = 78 / 25 := by decide +kernel
+-- nothing matches: exactly 1
+example : Boosts.intentBoostWith (S := ℚ) exSpec {} (mk "tar czf x" "compress directory") exA = 1 := by decide +kernel
+-- action in the command (1.5) and the compression special case (2.5)
+example : Boosts.intentBoostWith (S := ℚ) exSpec {} (mk "tar czf x compress" "pack") exB = 15 / 4 := by decide +kernel
+-- the makepkg penalty: 2 · 0.3, still positive
+example : Boosts.intentBoostWith (S := ℚ) exSpec {} (mk "makepkg -s" "build it") { exA with intent := bs "create" } = 3 / 5 := by
+  decide +kernel
+-- cascading boost: hint `tar` via the first field (+6), synonym `archive` of the action in the text (+3), context `tar` (+2.5)
+example : Boosts.cascadeBoostWith (S := ℚ) exSpec {} (mk "TAR czf x" "archive a folder")
+    (Boosts.buildCtx exSpec {} exB [bs "tar", bs "zip"]) = 25 / 2 := by decide +kernel
+-- … and exactly 1 when nothing matches
+example : Boosts.cascadeBoostWith (S := ℚ) exSpec {} (mk "ls -la" "list files") (Boosts.buildCtx exSpec {} exB [bs "tar"]) = 1 := by
+  decide +kernel
+-- the general theorems apply to it
+example : Pos (Boosts.intentBoostWith (S := ℚ) exSpec {} (mk "makepkg -s" "build it") exA) :=
+  Boosts.intentBoostWith_pos exSpec (by decide) _ _ _
+
+end examples_modelled
 
 end Wtf.C01
